@@ -3,6 +3,11 @@
 (* _resample_swarm and _update_swarm), the drawn data order and the selected output must form a behaviour of the    *)
 (* state machine from the recorded start forest.  Batch of traces selected by tid; all PGibbsSM invariants are      *)
 (* evaluated on every recorded swarm.                                                                               *)
+(* Weights: every swarm event carries the normalised particle weights as integers out of 1000 (w; for a resample    *)
+(* event also the weights before it, wb, and whether the swarm was replaced).  The adaptive-resampling rule of      *)
+(* AbstractSMCSampler is checked on them: resampling happens iff the relative effective sample size                 *)
+(* (sum w)^2 / (NP * sum w^2) is at most the threshold (decisions within 2 % of the threshold are left free:        *)
+(* the weights are quantised), a resampled swarm has uniform weights, a swarm that is not resampled is unchanged.   *)
 EXTENDS PGibbsSM, Json, IOUtils, SequencesExt
 Traces == JsonDeserialize(IOEnv.TRACE_FILE)
 VARIABLES tid, l
@@ -10,12 +15,26 @@ tvars == <<s0, sig, t, xs, phase, out, tid, l>>
 StateOf(j) == [f |-> {ToSet(c) : c \in ToSet(j.f)}, o |-> ToSet(j.o)]
 Swarm(j) == [k \in Slots |-> StateOf(j[k])]
 Ev == Traces[tid].events[l]
+Thr == Traces[tid].thr                              \* <<numerator, denominator>> of the resampling threshold
+SumSeq(q) == FoldSeq(LAMBDA x, acc : x + acc, 0, q)
+SumSq(q) == FoldSeq(LAMBDA x, acc : x * x + acc, 0, q)
+\* relative ESS <= threshold  <=>  S1^2 * den <= num * NP * S2   (weights out of 1000, NP <= 8, den <= 20: fits 32 bits)
+Lhs(q) == ((SumSeq(q) * SumSeq(q)) \div 100) * Thr[2]
+Rhs(q) == (Thr[1] * NP * SumSq(q)) \div 100
+MustResample(q) == Lhs(q) * 100 <= Rhs(q) * 98
+MustNotResample(q) == Lhs(q) * 98 >= Rhs(q) * 100 /\ Lhs(q) > Rhs(q)
+Uniform(q) == \A a, b \in 1..Len(q) : q[a] - q[b] \in {-1, 0, 1}
+ResampleRule(e) == \/ e.wb = <<>>                       \* weights not available (not finite): not judged
+                   \/ /\ MustResample(e.wb) => e.resampled
+                      /\ MustNotResample(e.wb) => ~e.resampled
+                      /\ e.resampled => Uniform(e.w)
+                      /\ ~e.resampled => (e.w = e.wb /\ xs' = xs)
 TraceInit == /\ tid \in 1..Len(Traces) /\ l = 1
              /\ s0 = StateOf(Traces[tid].s0) /\ sig = <<>> /\ t = 0 /\ xs = NoSwarm /\ phase = "sigma" /\ out = Empty
 TraceNext == /\ l <= Len(Traces[tid].events) /\ l' = l + 1 /\ UNCHANGED tid
              /\ CASE Ev.ev = "sigma"    -> DrawSigma /\ sig' = Ev.sigma
                   [] Ev.ev = "init"     -> InitSwarm /\ xs' = Swarm(Ev.xs)
-                  [] Ev.ev = "resample" -> Resample /\ xs' = Swarm(Ev.xs)
+                  [] Ev.ev = "resample" -> Resample /\ xs' = Swarm(Ev.xs) /\ ResampleRule(Ev)
                   [] Ev.ev = "update"   -> Update /\ xs' = Swarm(Ev.xs)
                   [] Ev.ev = "select"   -> Select /\ out' = StateOf(Ev.out)
                   [] OTHER -> FALSE
